@@ -96,10 +96,18 @@ func c14Body(c *explore.C, tier universe.Tier) {
 	}
 	perms := permutations(nf)
 	perm := perms[c.Choose(len(perms), explore.Data, "wire-order")]
+	typeless := false
+	if nf == 2 && lens[0] == c14Lens[1] {
+		// the tags of nocopy fields without their type descriptor ("id,req,,nocopy"): for one length of the first field
+		typeless = c.Bool(explore.Data, "tags-without-type-descriptor")
+	}
 	harness.Cur.Crumb(c.Choices())
 	hooks.Reset()
 
+	universe.TypelessOptions = typeless
+	defer func() { universe.TypelessOptions = false }()
 	core := c14Core(vs, ids)
+	universe.StructGoType(core)
 	var outer *ref.Struct
 	D := ref.ReqDefault
 	switch nest {
